@@ -10,6 +10,8 @@ func init() {
 		MinEvals: 1000,
 		Rule: "case = (block size, 1-3 Directory volumes in a chosen mount order, RO/RW per volume, per-volume copy state absent|intact|corruption kind); " +
 			"requests GET,HEAD,PUT(mismatching body),GET,HEAD,PUT(correct),GET,HEAD over a loopback HTTP connection to the real router; " +
+			"further streams: per-volume write faults (full marker, file in the way of the block directory); concurrent clients with aborted uploads; two overlapping PUTs of one block, one cancelled; " +
+			"shared pooled buffers: a GET abandoned by its client while the volume read is parked at a yield point, followed by a PUT that is parked in WriteBlock while the abandoned read is released (abandon), and a short-bodied PUT right after the same block went through the buffer (stalebuf); " +
 			"non-trivial = at least one stored copy; distinct = distinct (size class, per-volume ro/rw:state) tuples",
 		Assume: []string{"Directory volumes on the local filesystem", "Go's net/http client parses status/Content-Length faithfully"},
 	})
